@@ -136,7 +136,7 @@ Proof.
   destruct (cfinish_nodes _ _ _ _ Hi Hf) as (nds & Efn & _ & Hsub & Hall).
   intros nd Hnd. rewrite Efn in Hnd. apply in_map_iff in Hnd as (cn & <- & Hcn).
   eapply render_node_closed.
-  - destruct Hi as [Hst _ _]. unfold StOK in Hst. rewrite Forall_forall in Hst. apply Hst, Hsub, Hcn.
+  - destruct Hi as [[Hst _] _ _]. rewrite Forall_forall in Hst. apply Hst, Hsub, Hcn.
   - intros u Hu. unfold node_uuids. rewrite Efn, map_map.
     erewrite map_ext; [apply Hall, Hu|]. intros a. apply render_node_uuid.
 Qed.
